@@ -17,6 +17,16 @@ pub fn norm_comment(kind: K, text: &str) -> String {
         return format!("L:{}", text.trim_end());
     }
     let mut out = String::new();
+    // the lines of a block comment are what Typst's newline characters delimit (CR, CRLF, LS, ... as well as LF); which
+    // terminator ends a line is not part of the comment's text for this monitor (the printer re-joins the lines with LF) —
+    // a terminator that *vanishes* joins two lines and is seen
+    // (one directly in front of a line feed is a blank at the end of that line, which may go)
+    let text: String = text
+        .split('\n')
+        .enumerate()
+        .map(|(i, l)| (if i == 0 { l.trim_end() } else { l.trim() }).chars().map(|c| if typst_syntax::is_newline(c) { '\n' } else { c }).collect::<String>())
+        .collect::<Vec<_>>()
+        .join("\n");
     for (i, line) in text.lines().enumerate() {
         if i == 0 {
             out.push_str(line.trim_end());
